@@ -275,6 +275,7 @@ X = {
     'upper': ('char-case -to-upper', lambda s: s.upper()),
     'replace': ('replace OUT x', lambda s: s.replace('OUT', 'x')),
     'strip': ('strip', lambda s: s.strip()),
+    'identity': ('identity', lambda s: s),
 }
 
 
